@@ -52,7 +52,7 @@ def main(argv: list[str]) -> int:
                 for v in json.load(fh):
                     print(f"recorded: {v['rule']} {v['loc']} {v['key']}\n          {v['msg']}")
             print("re-deriving on the current tree:")
-        pack.run(ctx)
+        ctx.guarded(pack.run)
         if args.tier == "thorough" and not args.no_selftest and hasattr(pack, "MUTANTS"):
             from hsverif.selftest import run_selftest
 
